@@ -173,3 +173,48 @@ func VerifH_C19_uncaught_text() {
 	f, _ := v.ToFloat()
 	verifAssert(e2 == nil && f == 2, "later scripts run normally")
 }
+
+// C19-H6: the innermost frame of an interpreter-raised error points at the
+// failing expression (line and column of its start), for every member-access,
+// call and reference form, wherever symbolic white space / line terminators put it.
+var verifRaiseForms = []struct {
+	expr  string
+	class string
+}{
+	{"boom", "ReferenceError"}, {"u.p", "TypeError"}, {"u[k]", "TypeError"}, {"u.p.q", "TypeError"}, {"u[k][k]", "TypeError"},
+	{"u.p = 1", "TypeError"}, {"u[k] = 1", "TypeError"}, {"n.p", "TypeError"}, {"n[k]", "TypeError"}, {"u()", "TypeError"},
+	{"o.m()", "TypeError"}, {"o[k]()", "TypeError"}, {"n.f()", "TypeError"}, {"u.p++", "TypeError"}, {"delete u[k]", "TypeError"},
+}
+
+func VerifH_C19_raise_sites() {
+	vm := New()
+	f := verifRaiseForms[verifChoose(len(verifRaiseForms))]
+	pad := verifPad(verifParam("pad", 2))
+	head := "var u, n = null, k = 'kk', o = {};\nfunction f(){\n" + pad
+	src := head + f.expr + "\n}\nf()"
+	verifLog(f.expr)
+	_, err := vm.Run(src)
+	verifCover("reached")
+	oe, isOtto := err.(*Error)
+	verifAssert(isOtto && oe.name == f.class, "the program ends in the expected native error")
+	if !isOtto || len(oe.trace) == 0 {
+		return
+	}
+	fr := oe.trace[0]
+	verifAssert(fr.callee == "f" && !fr.native, "innermost frame is the function that raised")
+	if fr.file == nil {
+		verifAssert(false, "innermost frame has a file")
+		return
+	}
+	pos := fr.file.Position(file.Idx(fr.offset))
+	if pos == nil {
+		verifAssert(false, "innermost frame has a position")
+		return
+	}
+	off := len(head)
+	if f.expr == "delete u[k]" {
+		off += 7 // the position is that of the member expression
+	}
+	line, col := refLineCol(src, off)
+	verifAssert(pos.Line == line && pos.Column == col, "line and column of the failing expression")
+}
